@@ -12,7 +12,7 @@ RULE = ('case = (specifier, hash, cipher/key size, coded count, passphrase class
         'with the reference; non-trivial = needs more than one hash context, or count shorter than salt+passphrase, or count not a multiple '
         'of len(salt+passphrase), or empty/long/non-ASCII passphrase; distinct = distinct case descriptors')
 ASSUMPTIONS = ['hashlib digests are correct', 'vf.ref.sym.s2k follows RFC 4880 3.7.1 (cross-checked against gpg symmetric encryption when gpg is available)']
-MIN_COUNTERS = {'derive_compared': 300, 'multi_context': 50, 'count_values': 200, 'count_boundary_window': 300, 'end_to_end_derivations': 50}
+MIN_COUNTERS = {'derive_compared': 300, 'multi_context': 50, 'count_values': 200, 'count_boundary_window': 300, 'end_to_end_derivations': 50, 'same_specifier_sequence_steps': 80}
 BUDGET = {'quick': (600, 1500), 'thorough': (1500, 3600)}
 
 HASHES = [1, 2, 3, 8, 9, 10, 11]
@@ -58,6 +58,11 @@ def cases(tier, seed):
     for j in range(len(E2E_PASSES)):
         for way in ('message-out', 'message-in', 'key-out', 'key-in'):
             cs.append({'e2e': way, 'pw': j})
+    # one process opening a run of foreign messages that share passphrase and specifier octets but need keys of different sizes (and the same
+    # for protected keys): nothing derived for one may be handed to the next
+    for spec in (0, 1, 3):
+        for j in range(3):
+            cs.append({'seq': spec, 'j': j})
     cs.append({'gpg': True})
     return cs
 
@@ -76,6 +81,8 @@ def run_case(ctx, d):
         return _gpg(ctx)
     if 'e2e' in d:
         return _e2e(ctx, d)
+    if 'seq' in d:
+        return _seq(ctx, d)
     if 'plen' in d:
         pn, pw = 'len%d' % d['plen'], bytes((i * 7 + 3) % 251 for i in range(d['plen']))
         ctx.count('count_boundary_window')
@@ -205,6 +212,47 @@ def _e2e(ctx, d):
                         raise ValueError('not unlocked')
             except Exception as e:
                 ctx.fail('s2k-of-public-operation-differs-from-reference', dict(where, what='key protected by the reference does not unlock under PGPy', err='%s: %s' % (type(e).__name__, str(e)[:100])))
+    ctx.nontrivial(d)
+
+
+def _seq(ctx, d):
+    import warnings
+    import pgpy
+    from .. import pool, encwork
+    r = ctx.rng('seq', d['seq'], d['j'])
+    pw = ['same passphrase', 'pässwörd', b'raw \xff bytes'][d['j']]
+    octets = pw.encode('utf-8') if isinstance(pw, str) else pw
+    h = [8, 2, 10][d['j']]
+    spec = (d['seq'], h, b'FIXDSALT', 0x50)
+    ciphers = [7, 9, 8, 3, 2, 13, 11, 12, 4, 9, 7]      # 128, 256, 192, 128, 192, 256, 128, 192, 128 ... bit keys
+    r.shuffle(ciphers)
+    with warnings.catch_warnings():
+        warnings.simplefilter('ignore')
+        for n, c in enumerate(ciphers):
+            ctx.count('evaluations')
+            ctx.count('end_to_end_derivations')
+            ctx.count('same_specifier_sequence_steps')
+            lit = encwork.literal_packet(b'seq %d' % n, b'b', b'', 0)
+            direct = n % 2 == 0
+            session = sym.s2k(spec[0], spec[1], spec[2], spec[3], octets, sym.keylen(c)) if direct else bytes(r.getrandbits(8) for _ in range(sym.keylen(c)))
+            blob = encwork.ref_encrypt(lit, c, session, [('pass', octets, spec, direct)])
+            try:
+                dec = pgpy.PGPMessage.from_blob(blob).decrypt(pw)
+                if bytes(dec._message._contents) != b'seq %d' % n:
+                    raise ValueError('different plaintext')
+            except Exception as e:
+                ctx.fail('s2k-of-public-operation-differs-from-reference', {'way': 'message-in sequence', 'step': n, 'cipher': c, 'earlier_ciphers': ciphers[:n], 'specifier': [d['seq'], h],
+                                                                            'session_key_in_skesk': not direct, 'err': '%s: %s' % (type(e).__name__, str(e)[:100])})
+            # the same specifier on a protected key
+            kc = [7, 9, 8, 3][n % 4]
+            prot = {'usage': 254, 'cipher': kc, 's2k': spec, 'iv': bytes(range(sym.blocksize(kc))), 'passphrase': octets}
+            k = pool.pgpy_bare('ed25519_3', protect=prot)
+            try:
+                with k.unlock(pw):
+                    if not k._key.unlocked:
+                        raise ValueError('not unlocked')
+            except Exception as e:
+                ctx.fail('s2k-of-public-operation-differs-from-reference', {'way': 'key-in sequence', 'step': n, 'cipher': kc, 'specifier': [d['seq'], h], 'err': '%s: %s' % (type(e).__name__, str(e)[:100])})
     ctx.nontrivial(d)
 
 
